@@ -85,6 +85,9 @@ func run(c *fw.Ctx) {
 	c.Cases("seq", c.N(12000, 150000), func(i int, r *fw.Rand) {
 		runSeq(c, i, r)
 	})
+	c.Cases("wear", c.N(60, 900), func(i int, r *fw.Rand) {
+		runWear(c, i, r)
+	})
 	cs := cutCases()
 	c.Cases("cut", len(cs), func(i int, r *fw.Rand) {
 		runCut(c, cs[i])
